@@ -470,10 +470,11 @@ def abort_sentinels(seqs, obs, rng, frac=1.0, limit=250):
 
 
 def run_runner_check(chk, pid, proj, opts, n_quick=400, n_thorough=6000, extra_seqs=None, oracle_pid=None,
-                     keep_result=None, extra_oracle=None):
+                     keep_result=None, extra_oracle=None, theorems_ok=None):
     import oracles
     oracle_pid = oracle_pid or pid
-    theorems_ok = chk.check_theorems()
+    if theorems_ok is None:
+        theorems_ok = chk.check_theorems()
     seqs = [s for s in load_corpus(pid)]
     n = n_quick if chk.tier == "quick" else n_thorough
     seqs += [gen_sequence(chk.rng, opts) for _ in range(n)]
@@ -515,6 +516,8 @@ def run_runner_check(chk, pid, proj, opts, n_quick=400, n_thorough=6000, extra_s
 
     if keep_result is not None:
         keep_result.update(seqs=seqs, obs=obs, bad=bad, failing=failing)
+    if keep_result is not None and keep_result.get("defer") and not bad and not extra_bad:
+        return seqs, obs
     if extra_bad:
         i, rep = extra_bad[0]
         rep = dict(rep)
